@@ -6,6 +6,7 @@ import PyYetiVerif.Lemmas.Op4AsciiHalf
 import PyYetiVerif.Lemmas.Op4Coo
 import PyYetiVerif.Lemmas.Op4Input
 import PyYetiVerif.Lemmas.Op4ReadBack
+import PyYetiVerif.Lemmas.Op4AsciiDir
 /-!
 # C04 — OUTPUT4 write followed by read is the identity
 
@@ -825,5 +826,33 @@ theorem read_back_needs_17 :
       decBits (decOf 16 0x8000000000000001) = 0x8000000000000001 := by
   refine ⟨by decide +kernel, by decide +kernel, ⟨by decide, by decide, by decide⟩, by decide +kernel,
     by decide +kernel, by decide +kernel⟩
+
+/-! ## `op4.dir` on ASCII files -/
+
+/-- **dir_matches_load_ascii.**  For every non-empty list of matrices written by the ASCII writer with `d`
+digits (`1 ≤ d ≤ 73`; the hypotheses of `file_roundtrip_ascii`), `op4.dir` — `_skipop4_ascii`, which counts
+lines from the column and string headers without reading a value — lists exactly what `op4.load` returns:
+per matrix, in file order, the name field, `|rows|`, the columns, form and type (`ADec.listing`).  The listing
+itself (`dirAscii … = some (ms.map listingOf)`) does not need the values to fit their fields: the skipper never
+slices a value line. -/
+theorem dir_matches_load_ascii (d : Nat) (hd : 1 ≤ d) (hd' : d ≤ 73) (ms : List (Layout × Mat)) (hne : ms ≠ [])
+    (hok : ∀ p ∈ ms, MatOK d p) :
+    dirAscii (encFileAscii d ms) = some (ms.map listingOf) ∧
+      ∃ ds, loadAscii (encFileAscii d ms) = some ds ∧ dirAscii (encFileAscii d ms) = some (ds.map ADec.listing) := by
+  have hp : 1 ≤ perline d := by
+    unfold perline numlen numlenBase expdigits lineWidth
+    exact (Nat.le_div_iff_mul_le (by omega)).2 (by omega)
+  have hdir := dirAscii_enc d hp ms hne fun p hp' => ⟨(hok p hp').1, (hok p hp').2.1⟩
+  obtain ⟨ds, hds, hrel⟩ := loadAscii_enc d hd hp ms hne hok
+  exact ⟨hdir, ds, hds, by rw [hdir, listing_of_decs d ms ds hrel]⟩
+
+/-- non-vacuity: the listing of a two-matrix file, one of them bigmat (negative rows in the file) -/
+example :
+    let m1 : Mat := { name := [75, 97], form := 2, cplx := false, rows := 4,
+                      cols := [[(0x3FF8000000000000, 0), (0, 0), (0x4000000000000000, 0), (0, 0)]] }
+    let m2 : Mat := { name := [66], form := 6, cplx := true, rows := 1, cols := [[(0x3FF0000000000000, 0x4000000000000000)]] }
+    dirAscii (encFileAscii 9 [(.bigmat, m1), (.dense, m2)]) =
+      some [("KA      ".toList, 4, 1, 2, 2), ("B       ".toList, 1, 1, 6, 4)] := by
+  decide +kernel
 
 end PyYetiVerif.C04
